@@ -80,11 +80,36 @@ def nontrivial(r):
     return r["steps"] >= 2 and r["feats"].get("alloc")
 
 
+def absorb_fixtures(ctx):
+    """pDESy's own test fixtures (flat products) under every rule, with/without absence steps"""
+    import fixtures
+    from driver import Driver
+    with Driver() as drv:
+        res = fixtures.run_fixtures(drv, [ctx.pid])
+    cell = ctx.matrix.setdefault("fixtures", dict(executions=0, disagreements=0, models=sorted(set(r["name"] for r in res))))
+    for r in res:
+        cell["executions"] += 1
+        ctx.evaluations += 1
+        ctx.traces_validated += 1
+        case = dict(stream="fixture", fixture=r["name"], params=r["params"])
+        for d in r["dis"]:
+            cell["disagreements"] += 1
+            rec = dict(case=case, phase=d["phase"], fields=d["fields"], time=d.get("time"), detail=d.get("detail"))
+            (ctx.footprint_disagreements if relevant(ctx.pid, d) else ctx.other_disagreements).append(rec)
+        for v in r["viol"]:
+            if v["what"].startswith("PREDICATE-CRASH"):
+                ctx.infra.append("fixture %s: %s" % (r["name"], v["what"]))
+                continue
+            ctx.violations.append(dict(v, case=case))
+    ctx.rule += "; plus pDESy's own test fixtures with a flat product (%d runs: every rule, with/without project absence steps), lockstep + whole run + predicate" % len(res)
+
+
 def sim_runner(profile="full", quick=480, thorough=16000):
     def run(ctx):
         n = ctx.n(quick, thorough)
         results = simstream.run_stream(ctx.seed, n, profile, [ctx.pid])
         absorb_sim(ctx, results, profile)
+        absorb_fixtures(ctx)
         if ctx.tier == "thorough" and ctx.n_override is None:
             exhaustive_small(ctx)
     return run
@@ -410,6 +435,24 @@ def replay(pid, path):
     if not v:
         print("replay file names what no longer checks (no failing input):")
         print(json.dumps(data.get("no_longer_checks", data), indent=1)[:3000])
+        return 1
+    if v["case"].get("stream") == "fixture":
+        import fixtures
+        from driver import Driver
+        with Driver() as drv:
+            rs = [r for r in fixtures.run_fixtures(drv, [pid])
+                  if r["name"] == v["case"]["fixture"] and r["params"] == v["case"]["params"]]
+        bad = 0
+        for r in rs:
+            for x in r["viol"]:
+                print("VIOLATION-REPLAYED:", x["what"])
+                bad = 1
+            for d in r["dis"]:
+                print("DISAGREEMENT:", d)
+        return bad
+    if "spec" not in v["case"] and "seed" not in v["case"]:
+        print("this replay is a history/pure-function case; its full description:")
+        print(json.dumps(v, indent=1, default=str)[:4000])
         return 1
     r, spec, params = eval_case(v["case"], pid)
     print(json.dumps(dict(spec=spec, params=params), indent=None))
